@@ -1081,3 +1081,139 @@ def run(ctx):
     _run_main3(ctx)
     extras3(ctx, Impl(ctx))
     ctx.flush()
+
+
+# ---- round-9 lessons ----------------------------------------------------------------------------------------------------------------------
+# (a) [hinted] consecutive spectrum jobs of exactly the SAME (n_periods, n_samples) shape, with n_periods * n_samples just above a new integer
+#     constant, whose period lists differ in having a leading T = 0 or not, on different records, alternating pseudo_/true_response_spectra
+#     (state shared between same-shape calls: seed C02-r9-1).  Clauses: T = 0 row (S_d = S_v = 0, S_a = PGA), row i of the job == the
+#     single-period call (==), |alpha| scaling.  Costs nothing without hints.
+# (b) calls whose period list AND time step are the current ones multiplied by the same power of two (same w*dt bit for bit, other dt) placed
+#     directly BEFORE the coarse and the refined call of the refinement relation (a memo keyed on the dimensionless step: seed C02-r9-2); and the
+#     time-scale covariance itself: response_series(a, s dt, s T) == (s^2 u, s v, a) of response_series(a, dt, T).
+
+def r9_same_shape_jobs(ctx, im):
+    consts = [c for c in gen.hint_consts(ctx, lo=2 ** 10, hi=2 ** 20, cap=6)]
+    if not consts:
+        return
+    rng = ctx.rng
+    sdof = im.sdof
+    budget = 330000         # recurrence steps
+    for c in consts[:3]:
+        n_p = 8 if c >= 2 ** 14 else 3
+        n = -(-c // n_p) + rng.choice([0, 1])
+        dt = rng.choice([0.01, 0.005, 0.02])
+        xi = rng.choice([0.02, 0.05, 0.2])
+        recs = [gen.noise_record(rng, n) * np.exp(-((np.arange(n) - n / 3) / (n / 5)) ** 2) * s for s in (1.0, 3.0, 0.5)]
+
+        def plist(lead0):
+            body = sorted(dt * math.exp(rng.uniform(math.log(8), math.log(300))) for _ in range(n_p - (1 if lead0 else 0)))
+            return np.array(([0.0] if lead0 else []) + body)
+        jobs = [('pseudo_response_spectra', 0, False), ('pseudo_response_spectra', 1, True), ('true_response_spectra', 2, False), ('true_response_spectra', 0, True),
+                ('pseudo_response_spectra', 1, True), ('true_response_spectra', 2, False), ('pseudo_response_spectra', 0, True)]
+        prev = 'nothing'
+        for fname, ri, lead0 in jobs:
+            if budget < 4 * n:
+                ctx.hist('same-shape jobs/skipped (budget)')
+                break
+            f = getattr(sdof, fname)
+            a = recs[ri]
+            periods = plist(lead0)
+            budget -= 4 * n
+            inputs = {'acc': f'noise x gaussian envelope #{ri}, n={n} (seeded)', 'dt': dt, 'periods': periods, 'xi': xi, 'cells': n_p * n, 'hinted_constant': c,
+                      'called_directly_after': prev}
+            prev = f'{fname} on record #{ri}, {n_p} periods ' + ('with' if lead0 else 'without') + ' a leading 0 (same shape)'
+            ctx.hist(f'same-shape jobs/c={c} {n_p}x{n} ' + ('lead0' if lead0 else 'plain'))
+            ctx.count_case(('r9shape', c, fname, ri, lead0, tuple(periods)), True)
+            whole = call_impl(f, a, dt, periods, xi)
+            if whole[0] != 'ok':
+                ctx.oracle(f'C02 {fname} returns for a large job', False, inputs, detail=whole)
+                continue
+            sd, sv, sa = (np.array(x) for x in whole[1])
+            if lead0:
+                pga = float(np.max(np.abs(a)))
+                ctx.oracle('C02 T = 0: S_d = S_v = 0 and S_a == peak ground acceleration, whatever was computed before', bool(sd[0] == 0 and sv[0] == 0 and sa[0] == pga), inputs,
+                           detail={'S_d[0]': float(sd[0]), 'S_v[0]': float(sv[0]), 'S_a[0]': float(sa[0]), 'pga': pga})
+            rows = [0, rng.randrange(1, n_p)]
+            ok, where = True, None
+            for j in rows:
+                one = call_impl(f, a, dt, periods[[j]], xi)          # n cells: below the constant
+                if one[0] != 'ok' or not all(float(np.asarray(x)[0]) == float(y[j]) for x, y in zip(one[1], (sd, sv, sa))):
+                    ok, where = False, {'row': j, 'period': float(periods[j]), 'job': [float(sd[j]), float(sv[j]), float(sa[j])],
+                                        'single': [float(np.asarray(x)[0]) for x in one[1]] if one[0] == 'ok' else one}
+                    break
+            ctx.oracle(f'C02 rows are independent for jobs of any size: {fname} of the whole period list == the same periods in batches (==)', ok, inputs, detail=where)
+            twice = call_impl(f, -2.0 * a, dt, periods, xi)          # same shape again, same list
+            ok = twice[0] == 'ok' and all(np.array_equal(np.asarray(x), 2.0 * y) for x, y in zip(twice[1], (sd, sv, sa)))
+            ctx.oracle('C02.a pseudo spectra ignore the sign and scale exactly by 2^k (==)' if fname.startswith('pseudo') else
+                       'C02.a true spectra ignore the sign and scale exactly by 2^k (==)', ok, {**inputs, 'alpha': -2.0})
+    ctx.flush()
+
+
+def r9_same_dimensionless_step(ctx, im):
+    rng = ctx.rng
+    cov_clause = ('C02 time-scale covariance: response_series(a, s dt, s T) == (s^2 u, s v, a) of response_series(a, dt, T) for s a power of two '
+                  '(1e-9 + 32 eps / (w dt)^3 of the peak)')
+
+    def cov(main, primed, s, periods, dt, inp):
+        worst, where = 0.0, None
+        for name, x, y, fac in zip('uva', main, primed, (s * s, s, 1.0)):
+            for j, T in enumerate(periods):
+                tol = 1e-9 if T == 0 else 1e-9 + K_CANCEL * EPS / (C_NJ / T * dt) ** 3
+                pk = max(peak(x[j]) * fac, peak(y[j]), 1e-300)
+                e = peak(y[j] - fac * x[j]) / pk / tol
+                if e > worst:
+                    worst, where = e, (name, j)
+        ctx.gap('time-scale covariance (relative to tolerance)', worst)
+        ctx.oracle(cov_clause, worst <= 1.0, inp, detail={'worst err/tol': worst, 'series,row': where})
+
+    for i in range(24 if ctx.tier == 'quick' else 200):
+        n = gen.log_int(rng, 4, 150)
+        dt = pick_dt(rng)
+        k, a = pick_record(rng, n, dt)
+        periods = sorted(dt * math.exp(rng.uniform(math.log(0.5), math.log(300))) for _ in range(rng.randint(1, 4)))
+        if rng.random() < 0.25:
+            periods = [0.0] + periods
+        xi = pick_xi(rng)
+        r = rng.choice([2, 4, 2, 8, 3])
+        s1, s2 = (2.0 ** rng.choice([-3, -2, -1, 1, 2, 3]) for _ in range(2))
+        if rng.random() < 0.5:
+            s1 = float(r)                # the setting primed before the refined call is then exactly the coarse one's dimensionless step
+        dt2 = dt / r
+        fine = np.interp(np.arange(r * (n - 1) + 1) / r, np.arange(n), a)
+        inp = {'acc': a, 'dt': dt, 'periods': periods, 'xi': xi, 'r': r,
+               'called_directly_before': f'response_series with dt and periods both multiplied by {s2} (coarse call) / {s1} (refined call)'}
+        ctx.hist('same dimensionless step/r=%d' % r)
+        ctx.count_case(('r9wdt', a.tobytes(), dt, tuple(periods), xi, r, s1, s2), gen.nontrivial_record(a))
+        other = a if rng.random() < 0.5 else pick_record(rng, n, dt)[1]
+        p_c = im.resp(other, dt * s2, [T * s2 for T in periods], xi)
+        coarse = im.resp(a, dt, periods, xi)
+        p_f = im.resp(fine, dt2 * s1, [T * s1 for T in periods], xi)
+        ref = im.resp(fine, dt2, periods, xi)
+        if coarse is None or ref is None or p_c is None or p_f is None:
+            continue
+        ok, worst, where = refine_check(coarse, ref, r, n, periods, xi, dt2, n * dt, peak(a), dt)
+        ctx.oracle('C02.e refinement by an integer factor leaves the response at the original instants unchanged (C01 tolerance at the refined step)',
+                   ok, inp, detail={'worst (series,row,err,tol)': where, 'refined_dt': dt2, 'factor': r})
+        cov(ref, p_f, s1, periods, dt2, {**inp, 'acc': fine, 'dt': dt2, 's': s1})
+        if other is a:
+            cov(coarse, p_c, s2, periods, dt, {**inp, 's': s2})
+        # row independence across the primed setting: the same call once more, and a single row, give the same numbers
+        again = im.resp(a, dt, periods, xi)
+        j = rng.randrange(len(periods))
+        row = im.resp(a, dt, [periods[j]], xi)
+        okr = again is not None and row is not None and eq3(again, coarse) and all(np.array_equal(x[0], y[j]) for x, y in zip(row, coarse))
+        ctx.oracle('C02.d each period\'s rows depend on that period only: the same call again and the single-period call give the same rows (==), also after a call with '
+                   'dt and the periods both scaled', okr, {**inp, 'row': j})
+    ctx.flush()
+
+
+_run_main_r9 = run
+
+
+def run(ctx):
+    _run_main_r9(ctx)
+    im = Impl(ctx)
+    r9_same_dimensionless_step(ctx, im)
+    r9_same_shape_jobs(ctx, im)
+    ctx.flush()
